@@ -215,18 +215,19 @@ def jobs(tier):
     th = tier == "thorough"
     J = []
     near = (-1, 1)
-    z = (-99, 99) if th else (-14, 14)
+    z = (-30, 30) if th else (-14, 14)
     allops = list(OPS)
     for mode in (C.MODES4 if th else ["gregorian", "360day"]):
         greg = mode == "gregorian"
-        for op in (allops if (greg or th) else ["eq", "lt"]):
+        thops = allops if greg else ["eq", "lt", "ge"]
+        for op in (thops if th else (allops if greg else ["eq", "lt"])):
             J.append(("job_cmp", dict(mode=mode, ra="ord", rb="ord", op=op, near=near, tzh=z)))
-        plan = [("cal", "cal", allops if th else (["eq", "lt"] if greg else ["lt"]))]
+        plan = [("cal", "cal", thops if th else (["eq", "lt"] if greg else ["lt"]))]
         if greg or th:
-            plan += [("cal", "ord", allops if th else ["lt"]), ("ord", "cal", allops if th else ["eq"])]
+            plan += [("cal", "ord", thops if th else ["lt"]), ("ord", "cal", thops if th else ["eq"])]
         for ra, rb, ops in plan:
             for op in ops:
-                for rg in split_ranges(ra, rb, th, mode):
+                for rg in split_ranges(ra, rb, th and greg and ra == rb, mode):
                     J.append(("job_cmp", dict(mode=mode, ra=ra, rb=rb, op=op, near=near, tzh=z, ranges=rg)))
         # decimal precision forms (hh,ii / hh:mm,nn with dyadic fractions) against hh:mm:ss and against each other
         if greg or th:
@@ -243,9 +244,9 @@ def jobs(tier):
             # week dates: the first operand's year residue mod 400 is pinned (K symbolic)
             wp = [("week", "ord"), ("ord", "week"), ("week", "cal"), ("cal", "week"), ("week", "week")]
             for ra, rb in wp:
-                for res in ((0, 99, 104, 203, 300, 399) if th else ((104, 399) if ra == rb else (104,))):
-                    for op in (allops if th else (["eq", "lt"] if ra == rb else ["lt"])):
-                        for rg in split_ranges(ra, rb, th, mode):
+                for res in ((0, 104, 399) if (th and greg) else ((104, 399) if ra == rb else (104,))):
+                    for op in ((["eq", "lt", "ge"] if greg else ["lt"]) if th else (["eq", "lt"] if ra == rb else ["lt"])):
+                        for rg in split_ranges(ra, rb, False, mode):
                             J.append(("job_cmp_res", dict(mode=mode, ra=ra, rb=rb, op=op, res=res, ranges=rg,
                                                           tzh=(-14, 14))))
     doys = [(a, min(a + 30, 366)) for a in range(1, 367, 31)]
@@ -314,7 +315,8 @@ INFO = {
                                   "W01-1/2, W09-3/4, W52/53-6/7); hash: every gregorian ordinal/calendar date, other modes Jan/Dec (ordinal) "
                                   "and Feb/Dec (calendar), week dates in weeks 1, 52, 53 for year residues 104 and 399",
                          "operators": "all six for ordinal/ordinal (every date); == and < for calendar/calendar and week/week, < or == for the mixed pairs; week dates with the first operand's year residue mod 400 pinned to 104 / 399 (cycle index symbolic)"},
-               "thorough": {"operators": "all six for every pair, 4 modes", "offsets": "-99:59..+99:59"}},
+               "thorough": {"operators": "all six in gregorian, eq/lt/ge in the other three modes", "offsets": "-30:59..+30:59",
+                            "dates": "all 9 window pairs for same-representation pairs in gregorian; week dates with year residues 0, 104, 399"}},
     "outside": ["truncated points (excluded by the property)", "fractional seconds; decimal hour/minute forms other than the dyadic fractions .25/.5/.75 on ordinal dates in the stated windows (decided exactly: with these fractions every instant is a whole number of seconds)",
                 "operand dates outside the stated windows in the comparison jobs (the hash jobs cover every date)"],
     "assumptions": ["hash(): the shim returns the tuple the real __hash__ builds; equal tuples of equal numbers have equal CPython hashes"],
